@@ -46,6 +46,7 @@ func runC09(rc *RunCtx, i int) {
 	// partitioning of the offered batches: none, a small fixed set, or a fresh partition id for
 	// every batch (time-bucket / per-request keys): flush requests then never share a partition
 	partMode := core.Pick(r, []string{"none", "none", "fixed", "fresh"})
+	emptyMix := i%3 == 2 // a third of the offered batches are empty
 	var batchSeq atomic.Int64
 	env, err := newLifecycleEnv(rc, i, r, func(s *gen.EngineSpec) {
 		s.IngestBuf = ingestBuf
@@ -94,7 +95,7 @@ func runC09(rc *RunCtx, i int) {
 	per := (trigger + batchRows - 1) / batchRows
 	bound := int64(ingestBuf + 4*per + 2)
 	offers := int(bound) * 20
-	desc := map[string]any{"case": env.w.Case, "ingest_buffer": ingestBuf, "flush_trigger_rows": trigger, "batch_rows": batchRows, "producers": producers, "gate": gateKind, "partitions": partMode, "bound": bound, "offers": offers, "max_buffered_time": maxBuf.String()}
+	desc := map[string]any{"case": env.w.Case, "ingest_buffer": ingestBuf, "flush_trigger_rows": trigger, "batch_rows": batchRows, "producers": producers, "gate": gateKind, "partitions": partMode, "every_third_batch_empty": emptyMix, "bound": bound, "offers": offers, "max_buffered_time": maxBuf.String()}
 
 	var accepted, answered, maxOut atomic.Int64
 	sample := func() {
@@ -149,6 +150,9 @@ func runC09(rc *RunCtx, i int) {
 				rowMu.Lock()
 				rows := make([]map[string]any, batchRows)
 				bn := batchSeq.Add(1)
+				if emptyMix && bn%3 == 0 {
+					rows = rows[:0] // an empty batch: no rows and no bytes, but a waiter all the same
+				}
 				for k := range rows {
 					rows[k] = env.w.NewRowWith(rr, 0, func(row map[string]any) {
 						switch partMode {
@@ -222,6 +226,31 @@ func runC09(rc *RunCtx, i int) {
 		sample()
 		if maxOut.Load() > bound {
 			fail("unbounded-acceptance", fmt.Sprintf("after saturation another batch was accepted: %d outstanding > bound %d", maxOut.Load(), bound))
+			return
+		}
+	}
+	// the pipeline is saturated: empty batches (no rows, no bytes) must not slip past the bound
+	// either; they are waiters like any other
+	if emptyMix {
+		extra := 0
+		for k := int64(0); k < 6*bound; k++ {
+			ectx, ecancel := context.WithTimeout(context.Background(), 15*time.Millisecond)
+			ch := make(chan error, 2)
+			eerr := e.IngestRows(ectx, []map[string]any{}, ch)
+			ecancel()
+			if eerr == nil {
+				extra++
+				accepted.Add(1)
+				cmu.Lock()
+				chans = append(chans, ch)
+				cmu.Unlock()
+			}
+			sample()
+		}
+		rc.Res.Count("empty_batches_offered_after_saturation", 6*bound)
+		if maxOut.Load() > bound {
+			desc["empty_batches_accepted_after_saturation"] = extra
+			fail("unbounded-acceptance", fmt.Sprintf("with the pipeline saturated (store stalled at %s), %d further empty batches were accepted; %d batches outstanding at once, bound %d", gateKind, extra, maxOut.Load(), bound))
 			return
 		}
 	}
